@@ -24,7 +24,7 @@ struct Spec {
     update: bool,
 }
 
-fn load_gillham(dir: &str) -> Option<Vec<Option<u32>>> {
+pub fn load_gillham(dir: &str) -> Option<Vec<Option<u32>>> {
     let s = std::fs::read_to_string(format!("{}/gillham_observed.txt", dir)).ok()?;
     let mut t = vec![None; 8192];
     let mut n = 0;
